@@ -44,3 +44,150 @@ def ip_mixed_207():
 
     res = asyncio.run(main())
     return {"heard": heard, "result": res}
+
+
+# ------------------------------------------------------------------------------------------------- bounded stand-in (IP)
+
+
+def run(tier="quick", seed=0, tag="C13#native"):
+    """the REAL IpPairing.get_characteristics / put_characteristics with scripted accessory replies against a reference
+    model of the property.  Bounds: request sets of 1..4 characteristics over accessory ids {1, 2}, permissions readable /
+    write-only / timed-write; replies: every vector of per-item statuses over {0, defined HAP codes, their positive-signed
+    form, an unknown code, absent}, 204 (empty) vs 207, a request-wide status with a partial list, duplicated, non-dict and
+    id-less entries; seeded random selection (quick 400, thorough 3000 exchanges)."""
+    import random
+
+    from aiohomekit.controller.ip.pairing import IpPairing
+    from aiohomekit.protocol.statuscodes import HapStatusCode
+
+    rnd = random.Random(seed)
+    codes = sorted(int(m.value) for m in HapStatusCode if int(m.value) != 0)
+    failures, seen, cases = [], set(), 0
+
+    def fail(what, **kw):
+        if what not in seen:
+            seen.add(what)
+            failures.append({"clause": f"{tag}.{what}", "scenario": {k: repr(v)[:400] for k, v in kw.items()}})
+
+    class Ch:
+        def __init__(self, perms):
+            self.perms = perms
+
+    def world(ids):
+        table = {k: Ch(rnd.choice([["pr", "pw"], ["pw"], ["pr", "pw", "tw"], ["pr", "pw", "ev"]])) for k in ids}
+
+        class Chars:
+            def __init__(self, aid):
+                self.aid_ = aid
+
+            def iid(self, i):
+                return table.get((self.aid_, i))
+
+        class Acc:
+            def __init__(self, aid):
+                self.characteristics = Chars(aid)
+
+        class Accs:
+            def aid(self, a):
+                return Acc(a)
+
+            def __bool__(self):
+                return True
+
+        return table, Accs()
+
+    def mk(reply, accs, heard):
+        class Conn:
+            async def put_json(self, target, body):
+                return reply
+
+            async def get_json(self, url):
+                return reply
+
+        p = IpPairing.__new__(IpPairing)
+        p.connection = Conn()
+        p._accessories_state = type("S", (), {"accessories": accs})()
+        p.listeners = {heard.append}
+
+        async def noop():
+            return None
+
+        p._ensure_connected = noop
+        return p
+
+    def norm(code):
+        """the status the library should report: the defined code (sign normalised) or 'unknown'"""
+        c = -abs(code)
+        return c if c in codes else None
+
+    n = 3000 if tier == "thorough" else 400
+    for _ in range(n):
+        ids = rnd.sample([(a, i) for a in (1, 2) for i in (10, 11, 12, 13)], rnd.randrange(1, 5))
+        table, accs = world(ids)
+        # ---- write
+        st = {k: rnd.choice([0, 0, "absent", rnd.choice(codes), -rnd.choice(codes), 12345]) for k in ids}
+        entries = [{"aid": a, "iid": i, "status": s} for (a, i), s in st.items() if s != "absent"]
+        junk = rnd.choice([[], ["x"], [{"status": -70402}], [{"aid": 1}], entries[:1]])
+        all_ok = all(s in (0, "absent") for s in st.values())
+        reply = {} if (all_ok and rnd.random() < 0.5) else {"characteristics": entries + junk}
+        heard = []
+        p = mk(reply, accs, heard)
+        req = [(a, i, rnd.randrange(100)) for a, i in ids]
+        cases += 1
+        try:
+            res = asyncio.run(p.put_characteristics(req))
+        except Exception as e:  # noqa: BLE001
+            fail("write-raises", req=req, reply=reply, raised=e)
+            continue
+        for (a, i, v) in req:
+            s = st[(a, i)]
+            rejected = s not in (0, "absent")
+            if rejected:
+                got = res.get((a, i))
+                if not got or got.get("status") in (0, None):
+                    fail("rejected-write-presented-as-written", req=req, reply=reply, result=res)
+                elif got.get("status") not in (s, norm(s)):  # (the accessory's status, as sent or sign-normalised)
+                    fail("wrong-status-for-rejected-write", req=req, reply=reply, result=res)
+            elif (a, i) in res and res[(a, i)].get("status") not in (0, None):
+                fail("accepted-write-reported-with-error", req=req, reply=reply, result=res)
+        want = {(a, i): {"value": v} for a, i, v in req if st[(a, i)] in (0, "absent") and "pr" in table[(a, i)].perms}
+        got_heard = {}
+        for h in heard:
+            got_heard.update(h)
+        if got_heard != want or len(heard) > 1:
+            fail("listeners-not-exactly-the-accepted-readable-ones", req=req, reply=reply, heard=heard, want=want)
+        # ---- read
+        vals = {k: rnd.choice([("value", rnd.randrange(50)), ("status", rnd.choice(codes)), ("status", -rnd.choice(codes)), ("absent", None)]) for k in ids}
+        entries = []
+        for (a, i), (kind, x) in vals.items():
+            if kind == "value":
+                entries.append({"aid": a, "iid": i, "value": x})
+            elif kind == "status":
+                entries.append({"aid": a, "iid": i, "status": x})
+        gstatus = rnd.choice([None, None, rnd.choice(codes)])
+        reply = {"characteristics": entries + rnd.choice([[], ["x"], [{"value": 1}], entries[:1]])}
+        if gstatus is not None:
+            reply["status"] = gstatus
+        p = mk(reply, accs, [])
+        cases += 1
+        try:
+            res = asyncio.run(p.get_characteristics(ids))
+        except Exception as e:  # noqa: BLE001
+            fail("read-raises", ids=ids, reply=reply, raised=e)
+            continue
+        for k, (kind, x) in vals.items():
+            got = res.get(k)
+            if kind == "value" and (not got or got.get("value") != x):
+                fail("read-value-lost", ids=ids, reply=reply, result=res)
+            if kind == "status" and (not got or got.get("status") not in (x, norm(x))):
+                fail("read-status-not-reported", ids=ids, reply=reply, result=res)
+            if kind == "absent" and gstatus is not None and (not got or got.get("status") not in (gstatus, norm(gstatus))):
+                fail("request-wide-status-not-applied-to-unmentioned", ids=ids, reply=reply, result=res)
+    return {"cases": cases, "failures": failures, "bound": f"{n} random write + read exchanges over 1..4 characteristics, IP transport only"}
+
+
+if __name__ == "__main__":
+    import json
+    import sys
+
+    print(json.dumps(run(sys.argv[1] if len(sys.argv) > 1 else "quick"), indent=1)[:3000])
